@@ -6,7 +6,7 @@
    executable surrogate pow_s used by the correspondence check. *)
 From Coq Require Import QArith Qminmax List Bool.
 From WSI Require Import Vqip Pow CoreLaws Decay.
-From WSI Require Tank Arc QTank TankLaws QTankLaws QueueLaws DecayStores.
+From WSI Require Tank Arc QTank TankLaws QTankLaws QueueLaws DecayStores DecayQTank.
 From WSI.gen Require Import GenCore.
 Import ListNotations.
 Open Scope Q_scope.
@@ -124,3 +124,13 @@ Theorem C11_decaying_queue_arc_closeout : forall q c, conserved c -> Arc.q_dec q
   QueueLaws.qsumc c (Arc.q_queue (Arc.q_end q)) + cmp c (Arc.q_decayed (Arc.q_end q)) == QueueLaws.qsumc c (Arc.q_queue q).
 Proof. exact DecayStores.q_end_decay. Qed.
 Print Assumptions C11_decaying_queue_arc_closeout.
+
+(* a decaying queue tank (DecayQueueTank: QueueGroundwater with decays): over every operation sequence what it
+   declares = arrived + in transit + decay applied and not yet reported; the close-out takes the pending decay
+   off what is declared and the queue's close-out decay becomes the new pending amount *)
+Theorem C11_decaying_queue_tank_ledger : forall ops t, Forall WSI.DecayQTank.qop_wet ops ->
+  WSI.DecayQTank.qledger t /\ WSI.DecayQTank.plain_quiet t ->
+  forall k, let t' := fold_left (fun s o => fst (QTank.qtank_do s o)) (firstn k ops) t in
+            WSI.DecayQTank.qledger t' /\ WSI.DecayQTank.plain_quiet t'.
+Proof. exact WSI.DecayQTank.qtank_run_ledger. Qed.
+Print Assumptions C11_decaying_queue_tank_ledger.
